@@ -31,6 +31,13 @@ def run(ctx):
             fns = [[fn(d, "R0", "E1", coop) for d in ds] + [fn(1, "R1")] * 2]
             scs += [scenario(st, fns, [start(1)]) for st in ([retry(2, dly=1), to(2)], [hg(2, 1, c=[cR("R1")])], [retry(1, dly=1), hg(1, 2, c=[cR("R1")])],
                                                               [fb(), hg(1, 1, c=[cR("R1")])], [to(3), retry(1), hg(1, 1)])]
+    # the counters a cancelled execution ends with: cancelled (caller, outer Timeout, async Cancel) while a retry or a hedge is pending
+    for st in ([retry(2, dly=3)], [to(2), retry(2, dly=3)], [hg(2, 3)], [to(2), hg(1, 3)], [fb(), retry(2, dly=2), hg(1, 3)]):
+        for coop in (True, False):
+            fns = [[fn(1, "R0", "E1", coop)] * 4]
+            for ct in (1, 2, 3, 4):
+                scs.append(scenario(st, fns, [start(1), env("CtxCancel", ct, 1)]))
+                scs.append(scenario(st, fns, [start(1, 0, True), env("AsyncCancel", ct, 1)]))
     p_c07.run_family(ctx, "c17t", scs)
     return vlib.finish(ctx, rule="all stacks of depth <= D over %d descriptors; Attempts/Executions/Retries/Hedges, flags and LastResult/LastError read inside the function, every listener and the fallback, compared with the spec's snapshot at that event; "
                        "non-trivial = more than one invocation or any policy event" % len(NAMES), exhaustive=True)
